@@ -257,6 +257,14 @@ func guardMixin(c *Ctx) {
 						}
 						nFill++
 						ok := false
+						// primary.F = orEmpty(primary.F): a helper that returns its argument unless it is nil/empty
+						if call, isCall := core.Unparen(rhs).(*ast.CallExpr); isCall && rhs != nil {
+							for ai, a := range call.Args {
+								if g := c.P.Funcs[c.P.StaticCallee(fi, call)]; g != nil && sameExpr(a, lx) && c.returnsParamUnlessEmpty(g, ai) {
+									ok = true
+								}
+							}
+						}
 						for _, cd := range c.conds(fi, as) {
 							if x, nonNil, isNil := core.NilTest(info, cd); isNil && !nonNil && sameExpr(x, lx) {
 								ok = true
@@ -1146,6 +1154,51 @@ func guardFixer(c *Ctx) {
 	} else {
 		c.S.Hold("C19", "GUARD-DESC", "single-store", "-", "exactly one store to Response.Description")
 	}
+}
+
+// returnsParamUnlessEmpty: a function each of whose returns is its idx-th parameter itself, or happens under a
+// test that the parameter is nil / empty (where it returns a fresh value instead).
+func (c *Ctx) returnsParamUnlessEmpty(g *core.FuncInfo, idx int) bool {
+	sig := g.Obj.Type().(*types.Signature)
+	if idx >= sig.Params().Len() || sig.Results().Len() != 1 || g.Decl == nil || g.Decl.Body == nil {
+		return false
+	}
+	info := c.info(g)
+	var param types.Object
+	if po := paramObj(g, idx); po != nil {
+		param = po
+	}
+	if param == nil {
+		return false
+	}
+	ok, n := true, 0
+	ast.Inspect(g.Decl.Body, func(nd ast.Node) bool {
+		if _, isLit := nd.(*ast.FuncLit); isLit {
+			return false
+		}
+		ret, isRet := nd.(*ast.ReturnStmt)
+		if !isRet || len(ret.Results) != 1 {
+			return true
+		}
+		n++
+		if core.ObjOf(info, ret.Results[0]) == param {
+			return true
+		}
+		underEmpty := false
+		for _, cd := range c.conds(g, ret) {
+			if x, nonNil, isNil := core.NilTest(info, cd); isNil && !nonNil && core.ObjOf(info, x) == param {
+				underEmpty = true
+			}
+			if x, empty, isE := core.EmptyTest(info, cd); isE && empty && core.ObjOf(info, x) == param {
+				underEmpty = true
+			}
+		}
+		if !underEmpty {
+			ok = false
+		}
+		return true
+	})
+	return ok && n >= 2
 }
 
 // divergesFrom reports whether cond reads a part of the object that target belongs to which is neither an ancestor
